@@ -12,7 +12,7 @@ REAL = ['onl.sim.core.Environment', 'onl.sim.events.Event/Timeout/Process/Initia
 STUBS = ['process bodies and plain callbacks are harness code']
 ASSUMPTIONS = ['registration order of process waiters is the G order of the bodies\' "about to yield" logs',
                'no condition events in C02 programs (C05 owns them)']
-PROBES = ['event_ge3_waiters', 'failed_mixed_handling', 'reyield_processed_failed', 'child_failure_no_joiner',
+PROBES = ['driven_by_run_until_event', 'until_event_failed', 'event_ge3_waiters', 'failed_mixed_handling', 'reyield_processed_failed', 'child_failure_no_joiner',
           'double_trigger', 'detached_by_interrupt', 'unhandled_escape', 'reyield_processed_ok']
 
 
@@ -37,7 +37,22 @@ def gen(rng, tier):
     prof.top_cbs = rng.choice([0, 1, 3])
     prof.handlers = rng.choice([['cont', 'rewait', 'ret', 'other', 'raise', 'none'],
                                 ['cont', 'cont', 'rewait', 'none'], ['none', 'cont']])
-    return gen_program(rng, prof)
+    case = gen_program(rng, prof)
+    if rng.random() < 0.3:
+        # driven through run(until=event) / run(until=number) as well: the until-event may succeed, fail or never occur
+        plan = []
+        labels = list(case['shared']) + [it['id'] for it in case['setup'] if it.get('k') in ('proc', 'timeout')]
+        for _ in range(rng.randint(1, 3)):
+            r = rng.random()
+            if r < 0.6 and labels:
+                plan.append(['until_ev', rng.choice(labels)])
+            elif r < 0.8:
+                plan.append(['steps', rng.randint(1, 6)])
+            else:
+                plan.append(['until', case['t0'] + rng.choice([0.5, 1, 2, 3])])
+        plan.append(['run'])
+        case['drive'] = plan
+    return case
 
 
 def _values(case):
@@ -73,6 +88,7 @@ def check(log, tvals, final, quiescent, cond_handling=None):
     order_open = None    # label whose callbacks are being run (between its P and the next P / step end)
     escapes = {}         # step -> exc
     expect_escape = {}   # step -> (label, exc)
+    until_failed = set()
     lenient_steps = set()
 
     for lb, v in tvals.items():
@@ -189,6 +205,12 @@ def check(log, tvals, final, quiescent, cond_handling=None):
             ended[pid] = g
         elif tag == 'X':
             escapes[r[2]] = r[3]
+        elif tag == 'D' and r[4] == 'until_ev':
+            stats['driven_by_run_until_event'] = 1
+            if r[6] == 'exc':
+                stats['until_event_failed'] = 1
+                # run(until=ev) reports the failure of ev itself by raising it: not an "unhandled failure" escape
+                until_failed.add(r[5])
 
     # 1+2: every registered waiter invoked exactly once, in registration order, with the outcome
     for lb, (g, st, lst) in step_of_P.items():
@@ -242,6 +264,9 @@ def check(log, tvals, final, quiescent, cond_handling=None):
             viol.append(('C02.6', 'failed %s (%s%r) had no handling waiter but step() did not raise' % (lb, e[1], e[2])))
         elif not (x[0] == 'exc' and x[1] == e[1] and x[2] == e[2]):
             viol.append(('C02.6', 'unhandled failure of %s (%s%r) escaped as %r' % (lb, e[1], e[2], x)))
+    for lb in until_failed:
+        if lb in step_of_P:
+            lenient_steps.add(step_of_P[lb][1])
     for st, x in escapes.items():
         if st not in expect_escape and st not in lenient_steps:
             viol.append(('C02.6', 'step %d raised %r although no unhandled failed event was processed in it' % (st, x)))
